@@ -50,12 +50,19 @@ func httpBody(c *runner.Ctx) {
 		cancelled bool
 		body      string
 		panics    bool
+		doomed    bool
+		vars      map[string]interface{}
 	}
 	var reqs []*request
 	for i := 0; i < nReq; i++ {
 		g := &gen{c: c, w: w, budget: 10}
 		root := g.genSet("Query", 0)
 		r := &request{idx: i, root: root, text: g.text(root, "")}
+		if c.Choose(6, "doomed-request") == 1 {
+			c.Fault("unexecutable-directive")
+			r.doomed = true
+			r.text, r.vars = doomedQuery(c)
+		}
 		r.cancelAt = c.Biased(6, 400, "http-cancel")
 		if c.Biased(4, 750, "http-panic") > 0 {
 			r.panics = true
@@ -77,10 +84,14 @@ func httpBody(c *runner.Ctx) {
 			simrt.Sleep(time.Duration(c.Choose(4, "req-delay")) * time.Millisecond)
 			ctx, cancel := context.WithCancel(context.Background())
 			defer cancel()
-			body, _ := json.Marshal(map[string]interface{}{"query": r.text, "variables": map[string]interface{}{}})
+			vars := r.vars
+			if vars == nil {
+				vars = map[string]interface{}{}
+			}
+			body, _ := json.Marshal(map[string]interface{}{"query": r.text, "variables": vars})
 			req := httptest.NewRequest("POST", "/graphql", bytes.NewReader(body)).WithContext(ctx)
 			rec := httptest.NewRecorder()
-			if r.panics {
+			if r.panics && !r.doomed {
 				ev := &evaluator{w: w, touched: map[string]bool{}}
 				ev.object("Query", 0, r.root, nil)
 				for k := range ev.touched {
@@ -130,6 +141,18 @@ func httpBody(c *runner.Ctx) {
 		}
 		if strings.Contains(r.body, "SECRET-panic") && !strings.Contains(r.body, "errors") {
 			c.Violate("panic-leaked-into-data", "%s", r.body)
+		}
+		if r.doomed && !r.cancelled {
+			var resp struct {
+				Data   interface{} `json:"data"`
+				Errors []string    `json:"errors"`
+			}
+			if err := json.Unmarshal([]byte(r.body), &resp); err != nil {
+				c.Violate("http-response-not-json", "%q: %v", r.body, err)
+			} else if len(resp.Errors) == 0 || resp.Data != nil {
+				c.Violate("unexecutable-query-answered-with-data", "request %d cannot be executed (bad @skip/@include argument) but was answered with %s\nquery: %s variables: %v", r.idx, r.body, r.text, r.vars)
+			}
+			continue
 		}
 		if !r.cancelled && !anyPanics {
 			// an undisturbed request answers with the query result at some moment;
